@@ -28,6 +28,8 @@ def has_unordered(t):
     if isinstance(t, dict):
         if t.get("k") in ("set", "frozenset", "dict"):
             return True
+        if t.get("k") == "ndarray" and len(t.get("shape", [])) >= 2:
+            return True          # memory layout is the "insertion order" of an array
         return any(has_unordered(x) for x in t.values())
     if isinstance(t, list):
         return any(has_unordered(x) for x in t)
@@ -211,6 +213,27 @@ def run(ctx):
     else:
         terms = ic.gen_terms(ctx, "all", natoms=8, nsmall=2, maxlen1=2, maxlens=1, maxlen2=2, arrsizes=(2, 6))
     ctx.extra["tlc_terms"] = len(terms)
+    # arrays of the TLC grammar have uniform content; derive, for every multi-dimensional array term, the two
+    # terms with distinct elements (row-major ramp and its column-major twin) so that memory layout matters
+    extra_arr = []
+    for t in terms:
+        if t["k"] == "ndarray" and len(t["shape"]) >= 2 and t["dtype"] != "bool":
+            n = 1
+            for d in t["shape"]:
+                n *= d
+            import numpy as _np
+            ramp = list(range(n))
+            twin = _np.arange(n).reshape(tuple(t["shape"]), order="F").ravel(order="C").tolist()
+            fmt = (lambda i: repr(float(i))) if t["dtype"].startswith("float") else str
+            for vals in (ramp, twin):
+                extra_arr.append(dict(t, v=[fmt(i) for i in vals]))
+    seen_x = set()
+    for t in extra_arr:
+        k = json.dumps(t, sort_keys=True)
+        if k not in seen_x:
+            seen_x.add(k)
+            terms.append(t)
+    ctx.extra["derived_array_terms"] = len(seen_x)
     t1 = time.time()
     if ctx.thorough:
         hyp = hypothesis_terms(ctx, 4000)
